@@ -439,6 +439,7 @@ fn comp_case<T: CompLike>(ctx: &mut Ctx, r: &mut Rng, t: &Tmpl, malformed: bool)
                 let res = guard(|| c.mass());
                 if emit { ctx.op(P, &format!("{}_mass", slot.name()), &tok_comp(&pre), &res_tok(&res, om)); }
                 // getter: Ok only on a consistent object, and then the stored field
+                if !(comp_fin(&pre) && comp_derived_o(&pre).map_or(true, |d| d.is_finite())) { ctx.count("mass.comp.get.nonfinite"); continue; }
                 ctx.checked(P, "comp_getter");
                 let inp = json!({"kind": "component_mass_getter", "component": slot.name(), "state": comp_json(&pre)});
                 match (&res, pre.mass, comp_derived_o(&pre)) {
@@ -626,7 +627,8 @@ fn oracle_loco_getters(ctx: &mut Ctx, id: &str, l: &Locomotive, v: &LocoV, input
         }
         (Ok(x), None) => bad = Some(format!("mass() = Ok({:?}) although the derived mass is undefined (partial mass data)", x.map(|q| q.value))),
         (Err(_), Some(d)) => {
-            let tight = match (v.mass, d) { (Some(m), Some(d)) => close_tight(m, d) || m == d, _ => true };
+            let tight = match (v.mass, d) { (Some(m), Some(d)) => close_tight(m, d) || m == d, _ => true }
+                && v.comps.iter().all(|c| match (c.mass, comp_derived_o(c)) { (Some(m), Some(d)) => close_tight(m, d) || m == d, _ => true });
             if tight { bad = Some(format!("mass() = Err on consistent mass {:?}, derived {:?}", v.mass, d)); }
         }
         (Err(_), None) => {}
@@ -850,4 +852,286 @@ fn load_loco(ctx: &mut Ctx, l: &Locomotive, v: &LocoV, emit: bool) {
             }
         }
     }
+}
+
+// ---------------------------------------------------------------- consists
+
+fn make_consist(locos: Vec<Locomotive>) -> Consist {
+    Consist::new(locos, None, PowerDistributionControlType::Proportional(Proportional))
+}
+
+/// roll-up clauses, computed from the units' own getters
+fn oracle_consist(ctx: &mut Ctx, id: &str, c: &Consist, vs: &[LocoV]) {
+    let input = json!({"kind": "consist", "locomotives": vs.iter().map(loco_json).collect::<Vec<_>>()});
+    let cm = guard(|| c.mass());
+    let cf = guard(|| c.force_max());
+    if cm.is_none() || cf.is_none() {
+        ctx.checked(P, "no_panic");
+        ctx.fail(P, "no_panic", id, "Consist::mass / force_max panicked".into(), input);
+        return;
+    }
+    let ms: Vec<anyhow::Result<Option<si_mass>>> = c.loco_vec.iter().map(|l| l.mass()).collect();
+    let fs: Vec<anyhow::Result<altrios_core::si::Force>> = c.loco_vec.iter().map(|l| l.force_max()).collect();
+    ctx.checked(P, "consist_mass_is_sum");
+    let any_err = ms.iter().any(|m| m.is_err());
+    let vals: Vec<Option<f64>> = ms.iter().filter_map(|m| m.as_ref().ok()).map(|m| m.map(|x| x.value)).collect();
+    let shape = if c.loco_vec.is_empty() { "empty" } else if any_err { "unit_err" } else if vals.iter().all(|m| m.is_none()) { "all_none" }
+        else if vals.iter().all(|m| m.is_some()) { "all_some" } else { "mixed" };
+    ctx.count(&format!("mass.consist.mass.{}", shape));
+    let got = cm.unwrap();
+    let okk = match shape {
+        "all_some" => { let s: f64 = vals.iter().map(|m| m.unwrap()).sum(); matches!(&got, Ok(Some(x)) if same(x.value, s)) }
+        "all_none" => matches!(&got, Ok(None)),
+        _ => got.is_err(),
+    };
+    if !okk {
+        ctx.fail(P, "consist_mass_is_sum", id, format!("Consist::mass() = {:?} for unit masses {:?} ({})", got.as_ref().map(|m| m.map(|x| x.value)).map_err(|_| "Err"), vals, shape), input.clone());
+    }
+    ctx.checked(P, "consist_force_max_is_sum");
+    let gotf = cf.unwrap();
+    let okf = if fs.iter().any(|x| x.is_err()) { ctx.count("mass.consist.force.unit_err"); gotf.is_err() } else {
+        ctx.count("mass.consist.force.sum");
+        let s: f64 = fs.iter().map(|x| x.as_ref().unwrap().value).sum();
+        matches!(&gotf, Ok(x) if same(x.value, s))
+    };
+    if !okf {
+        ctx.fail(P, "consist_force_max_is_sum", id, format!("Consist::force_max() = {:?}", gotf.as_ref().map(|x| x.value).map_err(|_| "Err")), input);
+    }
+}
+
+fn gen_consist_locos(r: &mut Rng, t: &Tmpl, nmax: usize) -> Vec<Locomotive> {
+    let n = if r.chance(0.04) { 0 } else { r.usize(1, nmax) };
+    // most consists homogeneous in what they know, so that the all-Some / all-None branches are the common ones
+    let style = r.below(10);
+    (0..n).map(|_| {
+        let mut v = gen_loco_v(r, false);
+        for _ in 0..20 {
+            let cons = inv_mass_fields(&v) && inv_force_fields(&v) && loco_derived_o(&v).is_some();
+            let known = v.mass.is_some() || matches!(loco_derived_o(&v), Some(Some(_)));
+            let okv = match style { 0..=4 => cons && known, 5..=6 => cons && !known, _ => true };
+            if okv { break; }
+            v = gen_loco_v(r, false);
+        }
+        t.build_loco(&v)
+    }).collect()
+}
+
+fn consist_case(ctx: &mut Ctx, r: &mut Rng, t: &Tmpl, nmax: usize) {
+    let mut c = make_consist(gen_consist_locos(r, t, nmax));
+    ctx.count(&format!("mass.consist.n.{}", c.loco_vec.len()));
+    let rounds = r.usize(1, 4);
+    for round in 0..rounds {
+        let vs: Vec<LocoV> = c.loco_vec.iter().map(view_loco).collect();
+        let emit = !vs.iter().any(loco_odd);
+        let rm = guard(|| c.mass());
+        let rf = guard(|| c.force_max());
+        let mut id = "unemitted".to_string();
+        if emit {
+            id = ctx.op(P, "consist_mass", &tok_locos(&vs), &res_tok(&rm, om));
+            ctx.op(P, "consist_force_max", &tok_locos(&vs), &res_tok(&rf, |x| f(x.value)));
+        }
+        oracle_consist(ctx, &id, &c, &vs);
+        if round == 0 && r.chance(0.3) {
+            // Consist::from_yaml: accepted only when the roll-up and every unit are consistent
+            let y = c.to_yaml().unwrap();
+            let res = guard(|| Consist::from_yaml(&y));
+            let a = match &res { None => "panic", Some(Err(_)) => "err", Some(Ok(_)) => "ok" };
+            if emit && vs.iter().all(loco_fin) { ctx.op(P, "consist_load", &tok_locos(&vs), a); }
+            ctx.count(&format!("mass.consist.load.{}", a));
+            ctx.checked(P, "load_accepts_only_consistent");
+            if let Some(Ok(_)) = res {
+                let cons = vs.iter().all(|v| inv_mass_fields(v) && loco_derived_o(v).is_some() && inv_force_fields(v) && v.comps.iter().all(comp_inv));
+                if !cons {
+                    ctx.fail(P, "load_accepts_only_consistent", &id, "Consist::from_yaml accepted a unit with redundant data that disagree".into(),
+                        json!({"kind": "consist_load", "locomotives": vs.iter().map(loco_json).collect::<Vec<_>>()}));
+                }
+            }
+        }
+        if c.loco_vec.is_empty() { break; }
+        // one setter call on one unit, then the roll-ups again
+        let i = r.usize(0, c.loco_vec.len() - 1);
+        let v = view_loco(&c.loco_vec[i]);
+        let op = pick_lop(r, &v, false);
+        let l = &mut c.loco_vec[i];
+        let _ = guard(|| match &op {
+            LOp::SetMass(new, se) => l.set_mass(new.map(|m| uc::KG * m), se.clone()).is_ok(),
+            LOp::SetForce(fm, se) => l.set_force_max(uc::N * *fm, se.real()).is_ok(),
+            LOp::SetMu(mu, se) => l.set_mu(uc::R * *mu, se.real()).is_ok(),
+            _ => true,
+        });
+    }
+}
+
+// ---------------------------------------------------------------- train static mass
+
+#[derive(Clone, Debug)]
+struct RvV { key: usize, base: f64, freight: f64 }
+
+fn make_rv(v: &RvV) -> RailVehicle {
+    let mut rv = RailVehicle::default();
+    rv.car_type = format!("T{}", v.key);
+    rv.mass_static_base = uc::KG * v.base;
+    rv.mass_freight = uc::KG * v.freight;
+    rv.length = uc::M * 15.0;
+    rv.axle_count = 4;
+    rv.brake_count = 1;
+    rv.speed_max = uc::MPS * 30.0;
+    rv.braking_ratio = uc::R * 0.1;
+    rv.mass_rot_per_axle = uc::KG * 680.0;
+    rv
+}
+
+fn train_case(ctx: &mut Ctx, r: &mut Rng, t: &Tmpl) {
+    let ntypes = if r.chance(0.03) { 0 } else { r.usize(1, 4) };
+    let mut rvs: Vec<RvV> = (0..ntypes).map(|k| RvV {
+        key: k,
+        base: *r.pick(&[20000.0, 25000.0, 30000.5, 33000.0]),
+        freight: *r.pick(&[0.0, 50000.0, 70000.25, 100000.0]),
+    }).collect();
+    if ntypes > 1 && r.chance(0.1) { let k = rvs[0].key; rvs[1].key = k; ctx.count("mass.train.duplicate_car_type"); }
+    let mut ncars: Vec<(usize, u32)> = vec![];
+    for v in &rvs { if !ncars.iter().any(|(k, _)| *k == v.key) { ncars.push((v.key, *r.pick(&[0u32, 1, 7, 50, 100, 135]))); } }
+    let variant = r.below(12);
+    match variant {
+        0 if !ncars.is_empty() => { ncars.pop(); ctx.count("mass.train.missing_key"); }
+        1 => { ncars.push((9, 3)); ctx.count("mass.train.extra_key"); }
+        _ => {}
+    }
+    r.shuffle(&mut ncars);
+    let override_ = if r.chance(0.35) { Some(*r.pick(&[1.0e6, 5.5e6, 1.25e7])) } else { None };
+    let locos = gen_consist_locos(r, t, 4);
+    let con = make_consist(locos);
+    let lvs: Vec<LocoV> = con.loco_vec.iter().map(view_loco).collect();
+    let tc = TrainConfig {
+        rail_vehicles: rvs.iter().map(make_rv).collect(),
+        n_cars_by_type: ncars.iter().map(|(k, n)| (format!("T{}", k), *n)).collect::<HashMap<String, u32>>(),
+        train_type: TrainType::Freight,
+        train_length: None,
+        train_mass: override_.map(|m| uc::KG * m),
+        cd_area_vec: None,
+    };
+    let rv_tok = seq(&rvs, |v| format!("{} {} {}", v.key, f(v.base), f(v.freight)));
+    let nc_tok = seq(&ncars, |(k, n)| format!("{} {}", k, n));
+    let ov_tok = of(&override_);
+    let input = json!({"kind": "train", "override_kg": override_, "rail_vehicles": rvs.iter().map(|v| json!({"type": v.key, "base": v.base, "freight": v.freight})).collect::<Vec<_>>(),
+        "n_cars_by_type": ncars, "locomotives": lvs.iter().map(loco_json).collect::<Vec<_>>()});
+    // towed mass
+    let tp = guard(|| tc.make_train_params());
+    let id = ctx.op(P, "train_towed", &format!("{} {} {}", ov_tok, rv_tok, nc_tok), &res_tok(&tp, |p| f(p.towed_mass_static.value)));
+    let cars: Option<f64> = rvs.iter().try_fold(0.0, |acc, v| ncars.iter().find(|(k, _)| *k == v.key).map(|(_, n)| acc + (v.base + v.freight) * *n as f64));
+    ctx.checked(P, "train_towed_mass");
+    match (&tp, cars) {
+        (Some(Ok(p)), Some(s)) => {
+            ctx.count(if override_.is_some() { "mass.train.towed.override" } else { "mass.train.towed.cars" });
+            let want = override_.unwrap_or(s);
+            if !same(p.towed_mass_static.value, want) {
+                ctx.fail(P, "train_towed_mass", &id, format!("towed_mass_static {} != {}", p.towed_mass_static.value, want), input.clone());
+            }
+        }
+        (Some(Ok(p)), None) => ctx.fail(P, "train_towed_mass", &id, format!("accepted with a car type missing from n_cars_by_type: {}", p.towed_mass_static.value), input.clone()),
+        (Some(Err(_)), Some(_)) => {
+            // eager evaluation of the car sum cannot fail here, so a rejection is wrong
+            ctx.fail(P, "train_towed_mass", &id, "make_train_params rejected complete car data".into(), input.clone());
+        }
+        (Some(Err(_)), None) => { ctx.count("mass.train.towed.rejected_missing_key"); if override_.is_some() { ctx.count("mass.train.towed.rejected_despite_override"); } }
+        (None, _) => { ctx.count("mass.train.towed.panic"); if !rvs.is_empty() { ctx.fail(P, "no_panic", &id, "make_train_params panicked".into(), input.clone()); } }
+    }
+    // static mass of the built simulation
+    let tsb = TrainSimBuilder::new("t".into(), tc, con.clone(), None, None, None);
+    let parts = guard(|| tsb.make_set_speed_train_sim_and_parts(Vec::<Link>::new(), Vec::<LinkIdx>::new(), SpeedTrace::default(), None));
+    let a = res_tok(&parts, |p| format!("{} {}", f(p.1.towed_mass_static.value), f(p.0.state.mass_static.value)));
+    let emit = !lvs.iter().any(loco_odd);
+    let id2 = if emit { ctx.op(P, "train_mass_static", &format!("{} {} {} {}", ov_tok, rv_tok, nc_tok, tok_locos(&lvs)), &a) } else { "unemitted".into() };
+    ctx.checked(P, "train_static_mass");
+    let cm = con.mass();
+    let keys_ok = rvs.iter().all(|v| ncars.iter().any(|(k, _)| *k == v.key)) && ncars.iter().all(|(k, _)| rvs.iter().any(|v| v.key == *k));
+    match (&parts, cars, &cm) {
+        (Some(Ok(p)), Some(s), Ok(cm)) if keys_ok => {
+            ctx.count(&format!("mass.train.static.ok.consist_{}", if cm.is_some() { "some" } else { "none" }));
+            let want = override_.unwrap_or(s) + cm.map_or(0.0, |m| m.value);
+            if !same(p.0.state.mass_static.value, want) {
+                ctx.fail(P, "train_static_mass", &id2, format!("mass_static {} != cars/override {} + consist {:?}", p.0.state.mass_static.value, override_.unwrap_or(s), cm.map(|m| m.value)), input.clone());
+            }
+        }
+        (Some(Ok(p)), _, _) => ctx.fail(P, "train_static_mass", &id2, format!("built a train (mass_static {}) from inconsistent inputs", p.0.state.mass_static.value), input.clone()),
+        (Some(Err(_)), Some(_), Ok(_)) if keys_ok && !rvs.is_empty() => ctx.fail(P, "train_static_mass", &id2, "rejected consistent inputs".into(), input.clone()),
+        (Some(Err(_)), _, _) => ctx.count("mass.train.static.rejected"),
+        (None, _, _) => { ctx.count("mass.train.static.panic"); if !rvs.is_empty() { ctx.fail(P, "no_panic", &id2, "make_train_sim_parts panicked".into(), input.clone()); } }
+    }
+    ctx.sample("mass.train", input);
+}
+
+// ---------------------------------------------------------------- scripted (reject, then accept) sequences and corpus
+
+fn scripted_starts() -> Vec<LocoV> {
+    let fc = CompV { mass: Some(4000.0), spec: Some(250.0), rating: 1.0e6 };
+    let gen = CompV { mass: Some(2000.0), spec: Some(500.0), rating: 1.0e6 };
+    let res = CompV { mass: Some(8000.0), spec: Some(2.0), rating: 16000.0 };
+    let none = |c: &CompV| CompV { mass: None, spec: None, rating: c.rating };
+    let mu = 0.3;
+    let mk = |kind: Kind, comps: Vec<CompV>, baseline: Option<f64>, ballast: Option<f64>, mass: Option<f64>, mu: Option<f64>| {
+        let force = match (mu, mass) { (Some(a), Some(b)) => a * b * g(), _ => 667.2e3 };
+        LocoV { kind, comps, mass, mu, ballast, baseline, force }
+    };
+    vec![
+        // the shipped default: mass only
+        mk(Kind::Conv, vec![none(&fc), none(&gen)], None, None, Some(195000.0), None),
+        mk(Kind::Conv, vec![none(&fc), none(&gen)], None, None, Some(195000.0), Some(mu)),
+        mk(Kind::Conv, vec![fc.clone(), gen.clone()], Some(150000.0), Some(5000.0), Some(161000.0), Some(mu)),
+        mk(Kind::Bel, vec![res.clone()], Some(150000.0), Some(5000.0), Some(163000.0), Some(mu)),
+        mk(Kind::Bel, vec![none(&res)], None, None, None, Some(mu)),
+        mk(Kind::Hybrid, vec![fc, gen, res], Some(150000.0), Some(5000.0), Some(169000.0), Some(mu)),
+        // DummyLoco as `build_dummy_loco` assembles it (default mass, no mu), and with only mu known
+        mk(Kind::Dummy, vec![], None, None, Some(195000.0), None),
+        mk(Kind::Dummy, vec![], None, None, None, Some(mu)),
+    ]
+}
+
+fn scripted_cases(ctx: &mut Ctx, r: &mut Rng, t: &Tmpl) {
+    let firsts = |v: &LocoV| -> Vec<LOp> {
+        let m = v.mass.unwrap_or(1000.0);
+        vec![
+            LOp::SetMass(Some(m + 1000.0), MassSideEffect::None),
+            LOp::SetMass(None, MassSideEffect::None),
+            LOp::SetMass(Some(m), MassSideEffect::Extensive),
+            LOp::SetForce(v.force * 1.5, Fse::Mass),
+            LOp::SetMu(0.25, Muse::Mass),
+            LOp::SetMu(0.25, Muse::ForceMax),
+        ]
+    };
+    let seconds: Vec<LOp> = vec![
+        LOp::SetForce(500.0e3, Fse::UpdateMu), LOp::SetForce(500.0e3, Fse::SetMuToNone), LOp::SetForce(500.0e3, Fse::SetMassToNone),
+        LOp::SetForce(500.0e3, Fse::SetMassAndMuToNone), LOp::SetForce(500.0e3, Fse::Mass),
+        LOp::SetMu(0.2, Muse::Mass), LOp::SetMu(0.2, Muse::ForceMax), LOp::SetMu(0.2, Muse::SetMassToNone),
+        LOp::SetMass(None, MassSideEffect::None),
+    ];
+    for start in scripted_starts() {
+        for a in firsts(&start) {
+            for b in &seconds {
+                ctx.count("mass.scripted.reject_then_accept");
+                let script = vec![a.clone(), b.clone(), LOp::GetMass, LOp::GetForce, LOp::Load];
+                loco_case(ctx, r, t, false, Some(script), Some(start.clone()));
+            }
+        }
+    }
+}
+
+pub fn run(ctx: &mut Ctx, r: &mut Rng, tier: &str) {
+    let t = Tmpl::new();
+    let k = if tier == "thorough" { 15 } else { 1 };
+    scripted_cases(ctx, r, &t);
+    for _ in 0..(120 * k) {
+        let mut rr = r.fork(); comp_case::<FuelConverter>(ctx, &mut rr, &t, false);
+        let mut rr = r.fork(); comp_case::<Generator>(ctx, &mut rr, &t, false);
+        let mut rr = r.fork(); comp_case::<ReversibleEnergyStorage>(ctx, &mut rr, &t, false);
+    }
+    for _ in 0..(20 * k) {
+        let mut rr = r.fork(); comp_case::<FuelConverter>(ctx, &mut rr, &t, true);
+        let mut rr = r.fork(); comp_case::<Generator>(ctx, &mut rr, &t, true);
+        let mut rr = r.fork(); comp_case::<ReversibleEnergyStorage>(ctx, &mut rr, &t, true);
+    }
+    for _ in 0..(500 * k) { let mut rr = r.fork(); loco_case(ctx, &mut rr, &t, false, None, None); }
+    for _ in 0..(60 * k) { let mut rr = r.fork(); loco_case(ctx, &mut rr, &t, true, None, None); }
+    for i in 0..(150 * k) { let mut rr = r.fork(); consist_case(ctx, &mut rr, &t, if tier == "thorough" && i % 3 == 0 { 8 } else { 5 }); }
+    for _ in 0..(150 * k) { let mut rr = r.fork(); train_case(ctx, &mut rr, &t); }
 }
